@@ -98,7 +98,8 @@ def install_iter_recorder():
 
     def wrapped(self):
         traj, res = orig(self)
-        _rec.append({'op': 'iter', 'res': 'small' if abs(res) < self.options.mass_iter_reltol else 'large'})
+        tol = self.options.mass_iter_reltol
+        _rec.append({'op': 'iter', 'res': 'small' if abs(res) < tol else ('over' if res > 0 else 'under')})
         return traj, res
 
     Builder._fly_iteration = wrapped
@@ -223,14 +224,16 @@ def run_massiter(job):
     warnings.simplefilter('ignore')
     import AEIC.trajectories.builders as tb
 
-    maxit, tol, (a, b, lf) = job
+    maxit, tol, (a, b, lf), *more = job
+    lhv = more[0] if more else None   # MassIter.tla "under": a fuel of low heating value makes the first guess an under-estimate
     try:
         global _pm
         if _pm is None:
             load_config()
             _pm = sample_model()
         install_iter_recorder()
-        bld = tb.LegacyBuilder(options=tb.Options(iterate_mass=True, max_mass_iters=maxit, mass_iter_reltol=tol))
+        kw = {} if lhv is None else {'legacy_options': tb.LegacyOptions(fuel_LHV=lhv)}
+        bld = tb.LegacyBuilder(options=tb.Options(iterate_mass=True, max_mass_iters=maxit, mass_iter_reltol=tol), **kw)
         del _rec[:]
         devs = []
         try:
@@ -238,7 +241,7 @@ def run_massiter(job):
             outcome = 'returned'
             leftover = abs(float(t.fuel_mass[-1])) / float(t.total_fuel_mass)
             if not (leftover < tol):
-                devs.append(('returned-not-converged', f'max_mass_iters={maxit} tol={tol} {a}-{b}: returned trajectory leaves {leftover:.3e} of the trip fuel'))
+                devs.append(('returned-not-converged', f'max_mass_iters={maxit} tol={tol} {a}-{b}{"" if lhv is None else f" fuel LHV {lhv:g} J/kg"}: returned trajectory leaves {leftover:.3e} of the trip fuel'))
         except RuntimeError as e:
             outcome = 'nonconv' if 'converge' in str(e) else 'error'
             if outcome == 'error':
@@ -264,8 +267,14 @@ def run(ctx: Ctx):
         'missions use the sample B738 table and the repository test airports plus synthetic airports written by the harness',
         'the original reason is identified by exception class and a fragment of the message the failing stage itself raises',
     ]
+    replay_jobs = []
     if ctx.replay:
-        seqs = [json.loads(Path(ctx.replay).read_text())['case']['seq']]
+        case = json.loads(Path(ctx.replay).read_text())['case']
+        mi = case.get('massiter') or (case.get('seq') or {}).get('massiter')
+        if mi:
+            seqs, replay_jobs = [], [(mi[0], mi[1], tuple(mi[2]), *mi[3:])]
+        else:
+            seqs = [case['seq']]
     else:
         tlc.check(ctx, 'builder/Builder', 'builder/MC_Builder.cfg')
         tlc.check(ctx, 'builder/MassIter', 'builder/MC_MassIter.cfg')
@@ -304,23 +313,29 @@ def run(ctx: Ctx):
     ctx.log(f'flying {len(seqs)} flight sequences')
     results = pmap(run_seq, seqs)
     traces = []
+    jobs = replay_jobs
     if not ctx.replay:
         routes = [('BOS', 'LAX', 1.0), ('SFO', 'ORD', 0.6), ('DEN', 'JFK', 0.9)]
         jobs = [(m, t, r) for m in (1, 2, 3, 5, 8) for t in (0.2, 1e-2, 1e-3, 1e-4, 1e-5, 1e-6) for r in routes]
+        # under-estimated first guesses (negative residuals): fuels of low heating value on short routes
+        low = [(m, t, r, lhv) for m in (1, 2, 4, 8) for t in (1e-2, 1e-3) for r in (('BOS', 'JFK', 1.0), ('DEN', 'ABQ', 0.8)) for lhv in (10.0e6, 18.6e6)]
+        if ctx.quick:
+            low = [j for j in low if j[0] in (2, 8)]
         if ctx.quick:
             # tight tolerances with enough iterations to reach them are always flown: a returned trajectory must be within them
             tight = [j for j in jobs if j[0] >= 5 and j[1] in (1e-4, 1e-5)]
             rest = [j for j in jobs if j not in tight]
             ctx.rng.shuffle(rest)
             jobs = tight + rest[:14]
-        for job, (devs, trs) in zip(jobs, pmap(run_massiter, jobs)):
-            ctx.case_done({'massiter': job})
-            for key, desc in devs:
-                if key == 'machinery':
-                    raise MachineryError('builder worker failed: ' + desc)
-                ctx.violation(key, desc, {'massiter': job})
-            for t in trs:
-                traces.append({'t': f'massiter-{len(traces)}', 'ev': t, 'seq': {'massiter': job}})
+        jobs = jobs + low
+    for job, (devs, trs) in zip(jobs, pmap(run_massiter, jobs)):
+        ctx.case_done({'massiter': job})
+        for key, desc in devs:
+            if key == 'machinery':
+                raise MachineryError('builder worker failed: ' + desc)
+            ctx.violation(key, desc, {'massiter': job})
+        for t in trs:
+            traces.append({'t': f'massiter-{len(traces)}', 'ev': t, 'seq': {'massiter': job}})
     for seq, (devs, trs) in zip(seqs, results):
         ks = [f['k'] for f in seq['flights']]
         outs = [f['out'] for f in seq['flights']]
